@@ -1,8 +1,10 @@
 (* The only file with Extraction commands. ExtrOcamlBasic only: bool, option, list, prod, unit,
    sumbool map to OCaml's; nat/N/Z/positive stay inductive. No Extract Constant. *)
 Require Import ExtrOcamlBasic.
-From NinjaV Require Import Base.Bytes Canon.CanonDefs Shell.EscDefs Shell.ShModel Shell.JsonDefs.
+From NinjaV Require Import Base.Bytes Canon.CanonDefs Shell.EscDefs Shell.ShModel Shell.JsonDefs
+  Depfile.DepfileDefs Depfile.DepfileEnc.
 Extraction Language OCaml.
 Set Extraction KeepSingleton.
 Extraction "model.ml" Z.add N.add Nat.add canon canon_spec split_slash nf parse_path
-  shell_escape make_path_list sh_words json_encode json_decode utf8_valid.
+  shell_escape make_path_list sh_words json_encode json_decode utf8_valid
+  parse_depfile parse_depfile_idx render_rules_gen wf_gen enc_gen.
